@@ -172,6 +172,7 @@ def main(argv=None):
     ap.add_argument('--no-evidence', action='store_true')
     ap.add_argument('--digest-only', action='store_true')
     ap.add_argument('--long', action='store_true')
+    ap.add_argument('--no-corpus', action='store_true', help='skip the regression corpus (sensitivity experiments only)')
     ap.add_argument('--save', help='with --show: write the minimised history as a replay/witness file')
     ap.add_argument('--pred', help='with --show: search forward from K for the first run failing this predicate')
     args = ap.parse_args(argv)
@@ -241,7 +242,7 @@ def main(argv=None):
     # ---- regression corpus (witnesses of fixed findings and earlier catches)
     reg_n = 0
     open_witnesses = {f['witness'] for f in avoid.parse_known_findings() if f['status'] == 'open'}
-    for path in sorted(glob.glob(os.path.join(ROOT, 'regressions', '*.json'))):
+    for path in ([] if args.no_corpus else sorted(glob.glob(os.path.join(ROOT, 'regressions', '*.json')))):
         rel = os.path.relpath(path, ROOT)
         if rel in open_witnesses:
             continue
